@@ -178,7 +178,7 @@ func (c02) Generate(seed uint64, tier string, index int) any {
 					f.BlockLen = 700
 				}
 			}
-			f.StrongLen = []int{16, 16, 16, 16, 2, 4, 8, 12}[g.R.Intn(8)]
+			f.StrongLen = []int{16, 16, 16, 16, 2, 4, 8, 12, 1, 15}[g.R.Intn(10)]
 			bsz := int64(len(f.Basis.Bytes()))
 			if f.BlockLen < 700 && bsz > 40000 {
 				f.BlockLen = 700 // a tiny block length over a large basis is only a very long checksum list
